@@ -14,6 +14,9 @@ import (
 // C13 — parsing is a pure, re-entrant function of its input
 
 var c13Texts = map[string]string{
+	// fail on their very first token (error paths that run before anything was set up)
+	"lexerr":  "@ a := 1",
+	"lexerr2": "\"abc",
 	"if":      "if a { b }",
 	"ifelse":  "if a { b } elif c { d } else { e }",
 	"for":     "for a in b { c }",
@@ -85,6 +88,9 @@ func init() {
 	}
 	scs = append(scs, sc{"parse-if+maplit+for", []string{"if", "maplit", "for"}, false, 1, 2, false})
 	scs = append(scs, sc{"parse-if+if+nestmap", []string{"if", "if", "nestmap"}, false, 1, 2, false})
+	// parses that fail on their first token (in the sequential phase and again concurrently) next to valid ones
+	scs = append(scs, sc{"parse-lexerr+if+maplit", []string{"lexerr", "if", "maplit"}, false, 1, 2, false})
+	scs = append(scs, sc{"parsert-lexerr2+for+ifmap", []string{"lexerr2", "for", "ifmap"}, true, 1, 2, false})
 	scs = append(scs, sc{"eval-interp+maplit", []string{"interp", "maplit"}, true, 1, 2, true})
 	scs = append(scs, sc{"eval-interp+interp", []string{"interp", "interp"}, true, 1, 2, true})
 	for _, c := range scs {
